@@ -16,6 +16,7 @@ import (
 	"fmt"
 	"math"
 	"net"
+	"net/http"
 	"net/netip"
 	"net/url"
 	"os"
@@ -616,6 +617,44 @@ func (w *DispatchWorld) checkRequest(dm *dmsg, held *queue.Envelope, h hop, idx 
 				w.add("C07.push.header", "C07", "dispatch/request", "target received header %s=%q, stored value is %q", k, got, want)
 			}
 		}
+		if held != nil {
+			// the whole set: every stored header arrives with its value, and no
+			// X- header arrives that this message does not carry (signature
+			// headers and the gateway's own X-Hookaido-* aside)
+			stored := map[string]string{}
+			for k, v := range held.Headers {
+				stored[http.CanonicalHeaderKey(k)] = v
+			}
+			var snames []string
+			for k := range stored {
+				snames = append(snames, k)
+			}
+			sort.Strings(snames)
+			for _, k := range snames {
+				if got := nr.Header.Get(k); got != stored[k] {
+					w.add("C07.push.header", "C07", "dispatch/request", "target received header %s=%q, stored value is %q", k, got, stored[k])
+				}
+			}
+			skip := map[string]bool{}
+			if sgn := dm.target.Sign; sgn != nil {
+				skip["X-Hookaido-Signature"], skip["X-Hookaido-Timestamp"] = true, true
+				skip[http.CanonicalHeaderKey(sgn.SigHeader)], skip[http.CanonicalHeaderKey(sgn.TSHeader)] = true, true
+			}
+			var names []string
+			for k := range nr.Header {
+				names = append(names, k)
+			}
+			sort.Strings(names)
+			for _, k := range names {
+				ck := http.CanonicalHeaderKey(k)
+				if !strings.HasPrefix(ck, "X-") || strings.HasPrefix(ck, "X-Hookaido-") || skip[ck] {
+					continue
+				}
+				if _, ok := stored[ck]; !ok {
+					w.add("C07.push.header.foreign", "C07", "dispatch/request", "target received header %s=%q with message %s, which does not carry it (it belongs to another message)", k, nr.Header.Get(k), dm.token)
+				}
+			}
+		}
 	}
 	sg := dm.target.Sign
 	if sg == nil || idx > 0 {
@@ -813,7 +852,7 @@ func (w *DispatchWorld) sync(desc string) {
 }
 
 // Publish enqueues one message per target of the route (as ingress would).
-func (w *DispatchWorld) Publish(routeIdx int, extraHeader bool) {
+func (w *DispatchWorld) Publish(routeIdx int, extraHeader bool, variant ...string) {
 	r := &w.Spec.Routes[routeIdx%len(w.Spec.Routes)]
 	w.Res.Ops++
 	for i := range r.Deliver {
@@ -822,6 +861,10 @@ func (w *DispatchWorld) Publish(routeIdx int, extraHeader bool) {
 		hdr := map[string]string{"X-Tok": tok}
 		if extraHeader {
 			hdr["X-Extra"] = "a,b"
+		}
+		if len(variant) > 0 && variant[0] == "lower" {
+			// a header name as an operator's publish may store it: not canonical
+			hdr["x-tenant-token"] = "tenant-of-" + tok
 		}
 		dm := &dmsg{token: tok, route: r, target: &r.Deliver[i]}
 		w.pub = append(w.pub, dm)
@@ -1126,7 +1169,7 @@ func RunDispatchProgram(p *Program) *Result {
 				w.Res.fault("crash." + s.Image)
 			}
 		case "publish":
-			w.Publish(s.Batch, s.Pad)
+			w.Publish(s.Batch, s.Pad, s.Reason)
 		case "tick":
 			w.Tick(s.Batch)
 		case "advance":
